@@ -152,11 +152,21 @@ pub fn strategy() -> impl Strategy<Value = SessionCase> {
 
 pub fn build_steps(c: &SessionCase, corp: &corpus::Corpus) -> Vec<Step> {
     let mut steps = vec![];
+    let mut prev_game: Option<Game> = None;
     for (i, g) in c.games.iter().enumerate() {
         let mix = gen::StartMix { startpos: 3, corpus: 5, synth: 3, pattern: 5 };
-        let Some((start, _label)) = gen::start_pos(&g.start, corp, mix) else { continue };
-        let mut game = Game::new(start);
-        for &ch in &g.choices {
+        // every third step continues the previous step's game by 1..3 plies, as a GUI does
+        // after the engine's answer: the new root then lies inside the tree the previous go
+        // searched (and cached)
+        let continuation = prev_game.is_some() && c.ent[i][21] % 3 == 0;
+        let mut game = if continuation {
+            prev_game.clone().unwrap()
+        } else {
+            let Some((start, _label)) = gen::start_pos(&g.start, corp, mix) else { continue };
+            Game::new(start)
+        };
+        let choices: Vec<u16> = if continuation { g.choices.iter().take(1 + (c.ent[i][22] % 3) as usize).copied().collect() } else { g.choices.clone() };
+        for &ch in &choices {
             let legal = game.cur.legal_moves();
             if legal.is_empty() {
                 break;
@@ -171,8 +181,28 @@ pub fn build_steps(c: &SessionCase, corp: &corpus::Corpus) -> Vec<Step> {
             continue;
         }
         let wtm = game.cur.wtm;
-        let spec = go_spec(&mut Entropy::new(&c.ent[i]), wtm);
+        let mut spec = go_spec(&mut Entropy::new(&c.ent[i]), wtm);
+        // a time-bounded go must also end in time where the capture-only quiescence tree is
+        // enormous: now and then the position is a capture-saturated construction
+        let mut heavy = false;
+        if spec.time_bound_ms(wtm).is_some() && c.ent[i][20] % 6 == 0 {
+            if let Some(hp) = gen::heavy_pos(&mut Entropy::new(&c.ent[i][4..])) {
+                game = Game::new(hp);
+                heavy = true;
+                let w2 = game.cur.wtm;
+                if w2 != wtm {
+                    // keep the clock of the side to move meaningful after the swap
+                    std::mem::swap(&mut spec.wtime, &mut spec.btime);
+                    std::mem::swap(&mut spec.winc, &mut spec.binc);
+                }
+            }
+        }
+        let wtm = game.cur.wtm;
+        let n_legal = game.cur.legal_moves().len();
         let mut classes = spec.class(wtm);
+        if heavy {
+            classes.insert(0, "capture-saturated-position");
+        }
         if game.cur.in_check(wtm) {
             classes.push("in-check");
         }
@@ -193,6 +223,11 @@ pub fn build_steps(c: &SessionCase, corp: &corpus::Corpus) -> Vec<Step> {
         if !pre.is_empty() {
             classes.push("idle-commands-before");
         }
+        if continuation && !heavy {
+            classes.push("continues-previous-game");
+        }
+        // a capture-saturated position is only ever searched under a time bound: never continue from it
+        prev_game = if heavy { None } else { Some(game.clone()) };
         steps.push(Step {
             pre,
             position: position_command(&game.start, &game.moves_uci()),
@@ -351,7 +386,7 @@ pub fn replay(ctx: &Ctx, case: &Value) -> Report {
 }
 
 pub const LEVEL: &str = "exploration";
-pub const RULE: &str = "UCI sessions against the real engine binary: 1..5 consecutive (position, go) pairs, each optionally preceded by idle commands (stop, isready, ucinewgame, setoption, uci); positions with >= 1 legal move from startpos / corpus / synthesised / pattern starts (in-check and near-stalemate positions included) plus up to 30 plies of play; limits = any subset of {depth 1..255, nodes 1..200000 log-spaced, movetime 0..400 ms, wtime/btime 0..60000 ms, winc/binc 0..100 ms}, with depth <= 5 when nothing else bounds the work. Oracle per go: exactly one bestmove line, legal per the rules oracle, arriving before min(movetime, own clock + increment) + 3 s (60 s when only depth/nodes bound the search); a search-thread panic on stderr settles 'no bestmove' at once; then isready -> readyok within 3 s; bestmove count == go count at session end. Non-trivial = a limit can cut the first iteration (nodes <= 2000, time bound <= 20 ms, depth <= 2, only the opponent's clock), or the position is in check or has <= 3 legal moves, or it is the 2nd+ go of a session; distinct by (position, go command).";
+pub const RULE: &str = "UCI sessions against the real engine binary: 1..5 consecutive (position, go) pairs (every third one continues the previous pair's game by 1..3 plies, so its root lies inside the tree the previous go cached), each optionally preceded by idle commands (stop, isready, ucinewgame, setoption, uci); positions with >= 1 legal move from startpos / corpus / synthesised / pattern starts (in-check and near-stalemate positions included) plus up to 30 plies of play, and - only under a time-bounded go - capture-saturated constructions (5-9 queens a side); limits = any subset of {depth 1..255, nodes 1..200000 log-spaced, movetime 0..400 ms, wtime/btime 0..60000 ms, winc/binc 0..100 ms}, with depth <= 5 when nothing else bounds the work. Oracle per go: exactly one bestmove line, legal per the rules oracle, arriving before min(movetime, own clock + increment) + 3 s (60 s when only depth/nodes bound the search); a search-thread panic on stderr settles 'no bestmove' at once; then isready -> readyok within 3 s; bestmove count == go count at session end. Non-trivial = a limit can cut the first iteration (nodes <= 2000, time bound <= 20 ms, depth <= 2, only the opponent's clock), or the position is in check or has <= 3 legal moves, or it is the 2nd+ go of a session; distinct by (position, go command).";
 pub const ASSUMPTIONS: &[&str] = &[
     "the rules oracle decides legality of the answer",
     "deadlines are generous stand-ins for 'in time' (limit + 3 s); a harness-side spawn failure or a missing first readyok is reported as inconclusive (exit 2), never as a violation",
